@@ -34,6 +34,7 @@ from harness import c12_geos as G
 PID = 'C12'
 X, Y, Z = z3.Real('x'), z3.Real('y'), z3.Real('z')
 
+CPU = {'s': 0.0}
 _LD = None
 _REAL = None
 _SPECS = {}
@@ -177,6 +178,10 @@ class GeoData(object):
         if self._bpoly is None: self._bpoly = self.geo.boundary_polygon
         return self._bpoly
 
+    @property
+    def bnodes(self):
+        return [n.pos for n in self.geo.boundary_nodes]
+
     def outer_box(self):
         mx = (self.xmax - self.xmin) / 10; my = (self.ymax - self.ymin) / 10
         return (self.xmin - mx, self.xmax + mx, self.ymin - my, self.ymax + my)
@@ -254,7 +259,8 @@ def variant_kwargs(gd, variant):
         if part == 'plain': pass
         elif part == 'qtree': kw['qtree'] = gd.qtree
         elif part == 'brect': kw['bounds'] = gd.geo.bounds
-        elif part == 'bpoly': kw['bounds'] = gd.bpoly
+        elif part == 'bpoly': kw['bounds'] = gd.bpoly                 # geo.boundary_polygon (simplified)
+        elif part == 'bnodes': kw['bounds'] = gd.bnodes               # all boundary nodes (not simplified)
         elif part.startswith('guess'):
             guess = int(part[5:]) % len(gd.cols)
             kw['guess'] = gd.cols[guess]
@@ -393,9 +399,11 @@ def task_locate(geo, ncols, variant, box, boxid):
                                 result=str(r), obligation=lab, path_conditions=len(c.pc)))
         return out
 
+    cpu0 = time.process_time()
     res = sym.explore(h, fastctx.FastCtx(timeout_ms=30000), max_paths=20000)
+    CPU['s'] = time.process_time() - cpu0
     return report.summarize('locate/%s/%s/box%s' % (geo, variant, boxid), res, failures, samples,
-                            extra=dict(distinct_obligations=len(distinct), guess_relation=relation,
+                            extra=dict(cpu_s=CPU['s'], distinct_obligations=len(distinct), guess_relation=relation,
                                        columns=len(gd.cols), exclusion_lines=len(excl)))
 
 
@@ -436,9 +444,11 @@ def task_compare(geo, ncols, variants, box, boxid):
             samples.append(dict(task='compare', geo=geo, variants=variants, results=[str(r) for r in results]))
         return 'none' if r0 is None else 'col'
 
+    cpu0 = time.process_time()
     res = sym.explore(h, fastctx.FastCtx(timeout_ms=30000), max_paths=20000)
+    CPU['s'] = time.process_time() - cpu0
     return report.summarize('compare/%s/box%s' % (geo, boxid), res, failures, samples,
-                            extra=dict(distinct_obligations=len(distinct), columns=len(gd.cols)))
+                            extra=dict(cpu_s=CPU['s'], distinct_obligations=len(distinct), columns=len(gd.cols)))
 
 
 def task_block(geo, ncols, use_qtree, box, zbox, boxid):
@@ -493,9 +503,11 @@ def task_block(geo, ncols, use_qtree, box, zbox, boxid):
             samples.append(dict(task='block', geo=geo, qtree=use_qtree, result=r, obligation=lab))
         return out
 
+    cpu0 = time.process_time()
     res = sym.explore(h, fastctx.FastCtx(timeout_ms=30000), max_paths=20000)
+    CPU['s'] = time.process_time() - cpu0
     return report.summarize('block/%s/%s/box%s' % (geo, 'qtree' if use_qtree else 'plain', boxid), res, failures, samples,
-                            extra=dict(distinct_obligations=len(distinct), columns=len(gd.cols), blocks=len(blocks)))
+                            extra=dict(cpu_s=CPU['s'], distinct_obligations=len(distinct), columns=len(gd.cols), blocks=len(blocks)))
 
 
 # ---------------------------------------------------------------------------
@@ -527,13 +539,13 @@ def plan(tier):
              variants=['plain', 'qtree', 'brect', 'bpoly', GUESS_ALL, 'cols:even', 'cols:odd', 'qtree+guess0'],
              compare=['plain', 'qtree', 'guess8'], block=(2, [False, True])),
         dict(geo='g7sub', ncols=16, nx=4, ny=4,
-             variants=['plain', 'qtree', 'brect', 'bpoly', 'guess0', 'guess5', 'guess9', 'guess15', 'cols:even', 'cols:lasthalf', 'qtree+guess12'],
-             compare=['plain', 'qtree', 'guess3'], block=(2, [True])),
-        dict(geo='g2sub', ncols=14, nx=5, ny=5,
-             variants=['plain', 'qtree', 'brect', 'bpoly', 'guess0', 'guess6', 'guess13', 'cols:even', 'qtree+guess9'],
-             compare=None, block=(6, [False])),
+             variants=['plain', 'qtree', 'brect', 'bnodes', 'guess0', 'guess9', 'cols:even', 'qtree+guess12'],
+             compare=None, block=(1, [True])),
+        dict(geo='g2sub', ncols=12, nx=4, ny=4,
+             variants=['plain', 'qtree', 'bnodes', 'guess0', 'guess6', 'cols:even'],
+             compare=None, block=(3, [False])),
         dict(geo='g5sub', ncols=12, nx=4, ny=4,
-             variants=['plain', 'qtree', 'bpoly', 'guess0', 'guess7', 'cols:odd'],
+             variants=['plain', 'qtree', 'bnodes', 'guess7'],
              compare=None, block=None),
     ]
 
@@ -543,7 +555,10 @@ def run(tier, seed, rep):
     tasks = []
     geos = []
     nconf = 0
+    import os
+    only = os.environ.get('C12_ONLY')
     for p in plan(tier):
+        if only and p['geo'] not in only.split(','): continue
         _spec(p['geo'], p['ncols'])
         gd = GeoData(p['geo'], p['ncols'], need_qtree=False)
         areas = sorted(abs(sum(P[i][0] * P[(i + 1) % len(P)][1] - P[(i + 1) % len(P)][0] * P[i][1] for i in range(len(P)))) / 2 for P in gd.polys)
@@ -566,7 +581,7 @@ def run(tier, seed, rep):
                 for zi, zbox in enumerate(split_z(gd, nz)):
                     for uq in qts:
                         tasks.append((task_block, dict(geo=p['geo'], ncols=p['ncols'], use_qtree=uq, box=box, zbox=zbox, boxid='%d.%d' % (bi, zi))))
-    if tier == 'thorough':
+    if tier == 'thorough' and (not only or 'track' in only.split(',')):
         tasks += track_tasks()
     if seed:
         import random
@@ -582,11 +597,20 @@ def run(tier, seed, rep):
         reached[fam] = reached.get(fam, False) or ok
     for fam, ok in sorted(reached.items()):
         if not ok: rep.harness_error('%s: no path reached an obligation (vacuous)' % fam)
+    fam_cpu = {}
+    for r in results:
+        if r.get('error'): continue
+        fam = '/'.join(r['name'].split('/')[:2])
+        a = fam_cpu.setdefault(fam, dict(tasks=0, paths=0, cpu_s=0.0, max_task_cpu_s=0.0))
+        a['tasks'] += 1; a['paths'] += r['stats'].get('paths', 0)
+        a['cpu_s'] = round(a['cpu_s'] + r['extra'].get('cpu_s', 0.0), 1)
+        a['max_task_cpu_s'] = round(max(a['max_task_cpu_s'], r['extra'].get('cpu_s', 0.0)), 1)
+    rep.extra['cpu_by_family'] = fam_cpu
     rel = {}
     for r in results:
         for k, v in (r.get('extra', {}).get('guess_relation') or {}).items(): rel[k] = rel.get(k, 0) + v
     rep.extra['guess_relation_paths'] = rel
-    if tier and not all(k in rel for k in ('right', 'neighbour', 'far')):
+    if not only and not all(k in rel for k in ('right', 'neighbour', 'far')):
         rep.harness_error('guess classes not all reached: %r' % rel)
     rep.bounds += ['geometries are CONCRETE: ' + '; '.join(geos),
                    'point (x, y): any real point of the geometry\'s bounding box enlarged by 10 %% on each side (cut into sub-boxes that together cover it), '
@@ -615,7 +639,147 @@ def run(tier, seed, rep):
                            'distinct = distinct formulas by z3 AST hash per task')
 
 
-TRACK_OUTSIDE = ['column_track / line_polygon_intersections / line_intersects_rectangle (see C12.notes.md)']
+# ---------------------------------------------------------------------------
+# column_track (thorough tier): axis-parallel lines on tiny rectangular grids
+
+TRACK_OUTSIDE = ['column_track for lines that are not axis-parallel (4 symbolic end-point coordinates: Cramer quotients under sqrt and '
+                 '3-decimal rounding gave z3 "unknown" on most branch queries: 72 of 200 in 8 paths / 776 s; fixed 3-4-5 direction: 8 paths / 200 s), '
+                 'column_track on grids beyond 2x2 / 3x1 and on non-rectangular columns',
+                 'column_track for lines starting far outside the grid (the 3-decimal rounding of distances normalised by the last crossing distance '
+                 'merges crossings closer than 5e-4 of that distance; inside the 10 % box this only affects the corner clips the statement excludes)']
+
+
+def _install_track_stubs(ld):
+    """round-half-even of a symbolic real for ndarray.round (numpy calls x.rint()), and
+    np.unique(..., return_index=True) on symbolic data.  Local to this check."""
+    import numpy as _np
+    from vx import npshim
+    def _rint(self):
+        f = z3.ToInt(self.e + z3.RealVal('1/2'))
+        tie = z3.ToReal(f) == self.e + z3.RealVal('1/2')
+        return sym.SReal(z3.ToReal(z3.If(z3.And(tie, f % 2 != 0), f - 1, f)))
+    sym.SReal.rint = _rint
+    def unique(a, *args, **kw):
+        if npshim._has_sym(a) and not args and list(kw.keys()) == ['return_index'] and kw['return_index']:
+            npshim._hit('np.unique(return_index=True)')
+            arr = _np.asarray(a, dtype=object).ravel()
+            vals, idx = [], []
+            for i in npshim.argsort(arr):          # stable: the first of equal values has the smallest index
+                if vals and bool(arr[i] == vals[-1]): continue
+                vals.append(arr[i]); idx.append(int(i))
+            return _np.array(vals, dtype=object), _np.array(idx)
+        return npshim.unique(a, *args, **kw)
+    ld.geometry.np.unique = unique
+
+
+def task_track(geo, orient, obox, sbox, boxid):
+    """orient 'h': line (s, o) -> (e, o); 'v': line (o, s) -> (o, e).  o in obox, s in sbox, e anywhere in the outer box."""
+    ld = _load()
+    _install_track_stubs(ld)
+    gd = GeoData(geo, None, need_qtree=False)
+    mg = gd.mg
+    ax = 0 if orient == 'h' else 1          # axis along the line
+    ox = 1 - ax
+    outer = gd.outer_box()
+    arange = (outer[0], outer[1]) if ax == 0 else (outer[2], outer[3])
+    rects = []
+    for P in gd.polys:
+        lo = (min(p[0] for p in P), min(p[1] for p in P)); hi = (max(p[0] for p in P), max(p[1] for p in P))
+        rects.append((lo, hi, max(hi[0] - lo[0], hi[1] - lo[1]) * F(1e-3)))   # exact value of the float constant 1e-3 in column_track
+    olines = sorted(set([r[0][ox] for r in rects] + [r[1][ox] for r in rects]))
+    failures, samples, distinct = [], [], set()
+    O, S, Ee = z3.Real('o'), z3.Real('s'), z3.Real('e')
+    zmin = lambda a, b: z3.If(a <= b, a, b)
+    zmax = lambda a, b: z3.If(a >= b, a, b)
+    lo_, hi_ = zmin(S, Ee), zmax(S, Ee)
+    def length(k):
+        lo, hi, tol = rects[k]
+        ov = zmin(q(hi[ax]), hi_) - zmax(q(lo[ax]), lo_)
+        return z3.If(z3.And(O > q(lo[ox]), O < q(hi[ox]), ov > 0), ov, z3.RealVal(0))
+    lens = [length(k) for k in range(len(rects))]
+
+    def fail(c, sub, what):
+        m = c.failures[-1]['model']
+        vals = dict(o=sym.model_value(m, O), s=sym.model_value(m, S), e=sym.model_value(m, Ee))
+        failures.append(dict(key='column_track/%s/%s/%s' % (geo, orient, sub), what='%s %s: %s' % (geo, orient, what),
+                             replay=dict(fn='track', geo=geo, orient=orient, line=vals)))
+
+    def h(c):
+        o = c.real('o', obox[0], obox[1]); s0 = c.real('s', sbox[0], sbox[1]); e0 = c.real('e', arange[0], arange[1])
+        for lv in olines:                      # the line does not run along a column edge
+            c.add(z3.Or(O > q(lv + gd.tau), O < q(lv - gd.tau)))
+        c.add(S != Ee)
+        p0 = [None, None]; p1 = [None, None]
+        p0[ax], p0[ox], p1[ax], p1[ox] = s0, o, e0, o
+        line = [mg.np.array(p0), mg.np.array(p1)]
+        try:
+            track = gd.geo.column_track(line)
+        except Exception as ex:
+            c.prove(False, 'column_track raises no exception')
+            fail(c, type(ex).__name__, 'raised %s: %s' % (type(ex).__name__, ex))
+            return 'raised'
+        listed = []
+        ok_struct = True
+        for col, pin, pout in track:
+            k = gd.index.get(col.name)
+            if k is None or k in listed: ok_struct = False
+            else: listed.append(k)
+        if c.prove(z3.BoolVal(ok_struct), 'track lists columns of the geometry, each at most once') == 'sat':
+            fail(c, 'structure', 'track %r' % [t[0].name for t in track]); return 'track'
+        conj = []
+        for (col, pin, pout), k in zip(track, listed):
+            lo, hi, tol = rects[k]
+            ent = z3.If(S <= Ee, zmax(q(lo[ax]), S), zmin(q(hi[ax]), S))
+            ext = z3.If(S <= Ee, zmin(q(hi[ax]), Ee), zmax(q(lo[ax]), Ee))
+            conj.append(z3.And(lens[k] > 0, sym.lift_real(pin[ox]) == O, sym.lift_real(pout[ox]) == O,
+                               sym.lift_real(pin[ax]) == ent, sym.lift_real(pout[ax]) == ext))
+        f1 = z3.And(*conj) if conj else z3.BoolVal(True)
+        distinct.add(('seg', z3.simplify(f1).hash()))
+        if c.prove(f1, 'listed columns are crossed; entry and exit are the clip points on the line') == 'sat':
+            fail(c, 'segment', 'track %r' % [(t[0].name, str(t[1]), str(t[2])) for t in track][:3])
+        unl = [k for k in range(len(rects)) if k not in listed]
+        f2 = z3.And(*[lens[k] <= q(rects[k][2]) for k in unl]) if unl else z3.BoolVal(True)
+        distinct.add(('missing', z3.simplify(f2).hash()))
+        if c.prove(f2, 'unlisted columns are crossed by at most 1e-3 of their longest side') == 'sat':
+            fail(c, 'column-missing', 'track %r omits a crossed column' % [t[0].name for t in track])
+        zab = lambda e: z3.If(e >= 0, e, -e)
+        gap = z3.Sum(*([lens[k] for k in unl] + [z3.RealVal(0)]))
+        conj = []
+        for i in range(len(track) - 1):
+            a_out, b_in = sym.lift_real(track[i][2][ax]), sym.lift_real(track[i + 1][1][ax])
+            conj.append(z3.And(zab(sym.lift_real(track[i][1][ax]) - S) <= zab(b_in - S), zab(a_out - b_in) <= gap))
+        total = z3.Sum(*(lens + [z3.RealVal(0)]))
+        got = z3.Sum(*([zab(sym.lift_real(t[2][ax]) - sym.lift_real(t[1][ax])) for t in track] + [z3.RealVal(0)]))
+        f3 = z3.And(*(conj + [got + gap == total]))
+        distinct.add(('order', z3.simplify(f3).hash()))
+        if c.prove(f3, 'ordered along the line, consecutive segments abut (up to dropped clips), lengths add up to the length inside the domain') == 'sat':
+            fail(c, 'order-or-length', 'track %r' % [t[0].name for t in track])
+        if len(samples) < 1 and track:
+            samples.append(dict(task='track', geo=geo, orient=orient, track=[(t[0].name, str(t[1])[:60], str(t[2])[:60]) for t in track]))
+        return 'track'
+
+    cpu0 = time.process_time()
+    res = sym.explore(h, fastctx.FastCtx(timeout_ms=20000), max_paths=5000)
+    CPU['s'] = time.process_time() - cpu0
+    return report.summarize('track/%s/%s/box%s' % (geo, orient, boxid), res, failures, samples,
+                            extra=dict(cpu_s=CPU['s'], distinct_obligations=len(distinct)))
+
 
 def track_tasks():
-    return []
+    tasks = []
+    for geo in ('rect22', 'rect31'):
+        gd = GeoData(geo, None, need_qtree=False)
+        outer = gd.outer_box()
+        for orient in ('h', 'v'):
+            ax = 0 if orient == 'h' else 1
+            oco = gd.nodey if orient == 'h' else gd.nodex
+            sco = gd.nodex if orient == 'h' else gd.nodey
+            orng = (outer[2], outer[3]) if orient == 'h' else (outer[0], outer[1])
+            srng = (outer[0], outer[1]) if orient == 'h' else (outer[2], outer[3])
+            ocuts = [orng[0]] + list(oco) + [orng[1]]
+            scuts = [srng[0]] + list(sco) + [srng[1]]
+            for i in range(len(ocuts) - 1):
+                for j in range(len(scuts) - 1):
+                    tasks.append((task_track, dict(geo=geo, orient=orient, obox=(ocuts[i], ocuts[i + 1]), sbox=(scuts[j], scuts[j + 1]),
+                                                   boxid='%d.%d' % (i, j))))
+    return tasks
